@@ -31,6 +31,10 @@ type C07Scenario struct {
 	// reshuffles the registry while other publishes are being dispatched.
 	OnceBefore int  `json:"once_before,omitempty"`
 	SelfUnsub  bool `json:"self_unsub,omitempty"`
+	// CancelEvery: every n-th event (n>0) is published with a cancellable context that a synchronous
+	// neighbour, subscribed after the handlers under test, cancels during that publish. Deliveries of
+	// such an event are indeterminate; every other event must still arrive exactly once, in order.
+	CancelEvery int `json:"cancel_every,omitempty"`
 }
 
 func genC07(rt *rapid.T) core.Scenario {
@@ -44,6 +48,7 @@ func genC07(rt *rapid.T) core.Scenario {
 		r := C07Reg{Fn: fn, Opts: SubOpts{
 			Seq:   i == 0 || rapid.IntRange(0, 2).Draw(rt, "seq") > 0,
 			Async: rapid.Bool().Draw(rt, "async"),
+			Rev:   rapid.Bool().Draw(rt, "optionsReversed"),
 		}}
 		if rapid.IntRange(0, 3).Draw(rt, "panics") == 3 {
 			r.PanicOn = rapid.SliceOfNDistinct(rapid.IntRange(0, 5), 1, 2, rapid.ID[int]).Draw(rt, "panicOn")
@@ -65,6 +70,9 @@ func genC07(rt *rapid.T) core.Scenario {
 		sc.OnceBefore = rapid.IntRange(0, 2).Draw(rt, "onceBefore")
 		sc.SelfUnsub = rapid.Bool().Draw(rt, "selfUnsub")
 	}
+	if rapid.IntRange(0, 3).Draw(rt, "cancels") == 3 {
+		sc.CancelEvery = rapid.IntRange(1, 3).Draw(rt, "cancelEvery")
+	}
 	sc.Tape = core.DrawTape(rt, 600)
 	return sc
 }
@@ -84,12 +92,18 @@ func (sc *C07Scenario) Execute(t *testing.T) *core.Outcome {
 	body := func() {
 		w = NewWorld()
 		calls := map[int]int{}
+		cancelFn := map[int]context.CancelFunc{}
 		w.OnInvoke = func(ti, fn, uid int, ctx context.Context, id int) {
 			if uid >= 100 { // neighbours
 				w.Rec.Add("neighbour", uid, id, "")
 				simrt.Yield(siteHandler)
 				if uid == 200 {
 					ops.Unsub(w, fn)
+				}
+				if uid == 300 {
+					if c := cancelFn[id]; c != nil {
+						c()
+					}
 				}
 				return
 			}
@@ -135,16 +149,27 @@ func (sc *C07Scenario) Execute(t *testing.T) *core.Outcome {
 				return
 			}
 		}
+		if sc.CancelEvery > 0 {
+			if err := w.SubscribeUID(sc.Type, numSites-5, 300, SubOpts{}); err != nil {
+				out.HarnessErr = err.Error()
+				return
+			}
+		}
 		var tasks []*simrt.Task
 		for pi, l := range sc.Pubs {
 			l := l
 			tasks = append(tasks, simrt.GoNamed(fmt.Sprintf("pub%d", pi), func() {
 				for _, id := range l {
 					w.Rec.Add("pub-call", id, 0, "")
+					ctx := context.Background()
+					if sc.cancelled(id) {
+						c, cancel := context.WithCancel(ctx)
+						ctx, cancelFn[id] = c, cancel
+					}
 					if sc.ViaAny {
-						ops.PubAny(w, context.Background(), id)
+						ops.PubAny(w, ctx, id)
 					} else {
-						ops.Pub(w, context.Background(), id)
+						ops.Pub(w, ctx, id)
 					}
 					w.Rec.Add("pub-ret", id, 0, "")
 				}
@@ -177,9 +202,21 @@ func (sc *C07Scenario) Execute(t *testing.T) *core.Outcome {
 	}
 	var all []int
 	for _, l := range sc.Pubs {
-		all = append(all, l...)
+		for _, id := range l {
+			if !sc.cancelled(id) {
+				all = append(all, id)
+			}
+		}
 	}
 	for ri, r := range sc.Regs {
+		// events whose context was cancelled mid-publish may or may not have been delivered: compare the others
+		var kept []int
+		for _, id := range seen[ri] {
+			if !sc.cancelled(id) {
+				kept = append(kept, id)
+			}
+		}
+		seen[ri] = kept
 		if !sameMultiset(all, seen[ri]) {
 			out.V("sequential-delivery", "registration %d (%+v) received %v, expected each of %v exactly once", ri, r.Opts, seen[ri], all)
 			continue
@@ -202,6 +239,10 @@ func (sc *C07Scenario) Execute(t *testing.T) *core.Outcome {
 	}
 	out.Summary = fmt.Sprintf("%d regs, %d publishers, overlaps=%d", len(sc.Regs), len(sc.Pubs), overlaps)
 	return out
+}
+
+func (sc *C07Scenario) cancelled(id int) bool {
+	return sc.CancelEvery > 0 && (id%1000)%sc.CancelEvery == sc.CancelEvery-1
 }
 
 var propC07 = &core.Property{ID: "C07", Gen: genC07, New: func() core.Scenario { return &C07Scenario{} }}
